@@ -39,12 +39,16 @@ Definition same (t : ty) (r : list nat) : list nat :=
 (* results are printed as binary numbers: printing unary nat literals is slow *)
 Definition nn (l : list nat) : list N := map N.of_nat l.
 Definition st (l : list N) : list nat := map N.to_nat l.
-Definition obs_ty L ns canon t : list (list N) := map nn (
+Definition same_s (impl model : list nat) : list nat := if name_eqb impl model then [10] else model.
+(* the implementation's URI and text are passed in and compared here; the
+   model's value is printed only when they differ (printing is the slow part) *)
+Definition obs_ty L ns canon (c : ty * (list N * list N)) : list (list N) :=
+  let (t, io) := c in let (iu, it) := io in map nn (
   let u := uri L ns canon t in
-  [ eopt u;
+  [ same_s (st iu) (eopt u);
     match u with Some s => same t (eures (parse_type_uri L s)) | None => [9] end;
     match u with Some s => same t (eures (parse_type_uri_pinned L s)) | None => [9] end;
-    text_std L t;
+    same_s (st it) (text_std L t);
     same t (eres (parse_type L (text_std L t)));
     same t (eres (parse_type_pinned L (text_std L t)));
     [b2n (uri_domb L t); b2n (text_domb L t)] ]).
@@ -629,6 +633,16 @@ class Block:
             if repr(c) not in have:
                 have.add(repr(c))
                 self.types.append(c)
+        # the implementation's URI and printed text of every type case
+        self.impl_obs = {}
+        for t in self.types:
+            u = self.impl.uri(t)
+            iu = ([1] if self.impl.uri_error == "NonCanonicalTypeError" else [2]) if u is None else [0] + cps(u)
+            try:
+                it = cps(str(self.impl.inst(t)))
+            except Exception as e:  # noqa: BLE001
+                it = cps(f"<{type(e).__name__}>")
+            self.impl_obs[repr(t)] = (iu, it)
 
     def coq(self, i: int):
         L = f"L_{i}"
@@ -636,7 +650,10 @@ class Block:
         n = 0
         txt = [f"Definition {L} := {self.spec.coq()}.",
                f"Definition CN_{i} : list ty := {C.coq_list(self.canon_model, C.ty_coq)}."]
-        txt.append(f"Eval vm_compute in map (obs_ty {L} {ns} CN_{i}) {C.coq_list(self.types, C.ty_coq)}.")
+        def case(t):
+            iu, it = self.impl_obs[repr(t)]
+            return f"({C.ty_coq(t)}, ({C.coq_list(iu)}%N, {C.coq_list(it)}%N))"
+        txt.append(f"Eval vm_compute in map (obs_ty {L} {ns} CN_{i}) {C.coq_list(self.types, case)}.")
         txt.append(f"Eval vm_compute in map (obs_sty {L}) {C.coq_list(self.stys, sty_coq)}.")
         txt.append(f"Eval vm_compute in map (obs_str {L}) {C.coq_list(self.strings, coq_str)}.")
         txt.append(f"Eval vm_compute in map (obs_uri {L}) {C.coq_list(self.uris, coq_str)}.")
@@ -842,10 +859,14 @@ def check_block(rep: C.Report, st: Stats, b: Block, vals, bi: int):
         ok_t = [0] + ty_enc(t)
         m_dec, m_dec_p, m_parse, m_parse_p = [ok_t if x == [10] else x for x in (m_dec, m_dec_p, m_parse, m_parse_p)]
         st.n += 1
+        i_uri, i_text = b.impl_obs[repr(t)]
         u = impl.uri(t)
-        i_uri = ([1] if impl.uri_error == "NonCanonicalTypeError" else [2]) if u is None else [0] + cps(u)
-        s = str(impl.inst(t))
-        i_text = cps(s)
+        assert (([1] if impl.uri_error == "NonCanonicalTypeError" else [2]) if u is None else [0] + cps(u)) == i_uri
+        s = "".join(map(chr, i_text))
+        if m_uri == [10]:
+            m_uri = i_uri
+        if m_text == [10]:
+            m_text = i_text
         payload = {"type": t, "type_text": spec.text(t)}
         if s != spec.text(t) or i_text != m_text:
             disagree("text", dict(payload, what="str(t) differs from the model printer text_std",
